@@ -168,6 +168,14 @@ Section Quote.
     if negb ml && negb (Nat.eqb hc 0) then s   (* the hash count guarantees that no escaping is needed *)
     else esc_loop f ml hc (length s) s.
 
+  (* singleLineHashCount: the text starts with two quote characters (after the
+     opening quote they would read as the opening of a multiline string) *)
+  Definition lead_qq (q : N) (s : str) : bool :=
+    match s with
+    | a :: b :: _ => (a =? q) && (b =? q)
+    | _ => false
+    end.
+
   (* singleLineHashCount: None models the early `return 0` *)
   Fixpoint slhc_loop (f : form) (fuel : nat) (t : str) (hc : nat) : option nat :=
     match fuel with
@@ -189,6 +197,7 @@ Section Quote.
 
   Definition single_line_hash_count (f : form) (s : str) : nat :=
     if negb (existsb (fun c => (c =? ch_bs) || (c =? f_quote f)) s) then 0%nat
+    else if lead_qq (f_quote f) s then 0%nat
     else match slhc_loop f (length s) s 1 with Some n => n | None => 0%nat end.
 
   Definition eff_multiline (f : form) (s : str) : bool :=
